@@ -10,7 +10,7 @@ Ids(q) == [nil |-> FALSE, r |-> 0, ids |-> q]
 
 R1(id, o, m) == [type |-> "t1", id |-> id, extra |-> FALSE, vals |-> [a |-> V(1), n |-> NilV, o |-> Ids(o), m |-> Ids(m), o2 |-> Ids(<<>>), m2 |-> Ids(<<"w">>)]]
 R2(id, p)    == [type |-> "t2", id |-> id, extra |-> FALSE,
-                 vals |-> [f \in {"b", "p"} \cup T2Extra |-> IF f = "p" THEN Ids(p) ELSE IF f = "b" THEN V(2) ELSE V(1)]]
+                 vals |-> [f \in {"b", "p", "o"} \cup T2Extra |-> IF f = "p" THEN Ids(p) ELSE IF f = "o" THEN Ids(<<>>) ELSE IF f = "b" THEN V(2) ELSE V(1)]]
 Pool == { R1("x", <<>>, <<>>), R1("y", <<"u">>, <<"v", "u">>), R2("u", <<"x">>), R2("x", <<>>) }
 
 FieldSels == { <<>>, <<"a">>, <<"a", "o">>, <<"n", "m", "o", "a", "m2", "o2">>, <<"id", "zz", "a">>, <<"m", "m", "m2">> }
